@@ -7,7 +7,10 @@ case "$P" in /*) ;; *) P="/verif/$P";; esac
 if ! git apply "$P" 2>/dev/null; then
   if ! patch -p1 --fuzz=3 -s < "$P"; then echo "PATCH DOES NOT APPLY: $P"; git checkout -- .; git clean -fdq -e target; exit 3; fi
 fi
+# the evidence file describes the unchanged tree: keep it across a seeded run
+EV=/verif/evidence/$ID.json; [ -f $EV ] && cp $EV /tmp/seedtest_ev_$ID.json
 cd /verif && timeout 3000 ./check "$ID" --tier "$TIER" > /tmp/seedtest.out 2>&1; RC=$?
+[ -f /tmp/seedtest_ev_$ID.json ] && mv /tmp/seedtest_ev_$ID.json $EV
 git -C /repo checkout -- . ; find /repo -name '*.orig' -not -path '*/target/*' -delete; find /repo -name '*.rej' -not -path '*/target/*' -delete
 echo "seed $(basename $(dirname $P))/$(basename $P) check=$ID tier=$TIER exit=$RC"; grep -m3 -A1 "VIOLATION\|MACHINERY" /tmp/seedtest.out
 exit $RC
